@@ -20,11 +20,31 @@ CHECKS = {
           "Tens of thousands of generated (matcher, configuration, input) cases; each compares the complete event stream and final byte count of search_slice with 4-8 other strategies: fragmented readers with hook-set buffer capacities down to 0/1 byte, the smallest sufficient heap limit found by bisection, search_path with and without mmap, inputs crossing the 64 KiB default buffer, and all of it again with multi_line(true) requested. Random exploration with shrinking.",
           "Needs the verif-hooks capacity hook to make the buffer roll on small inputs; Interrupted reads are exercised in C16, not here.",
           "DESIGN.md section 3 C02"),
+  "C04": (True, "exploration",
+          "proptest-driven generated git repositories; differential oracle = git itself (git ls-files --others --exclude-standard and git check-ignore --no-index)",
+          "1 600 generated repositories (30 000 thorough): trees with dots, dashes, upper case, glob-looking names and names ending in '.', 1-4 .gitignore files at different depths over the gitignore grammar (literals, *, ?, classes, ** in its legal positions, anchoring, directory-only, negation, escapes, comments, trailing blanks), optionally case-insensitive; rg --files is compared in both directions with git's untracked-file listing under five root spellings and -j1/-j2, and Gitignore::matched_path_or_any_parents with git check-ignore for every path and ancestor. Random exploration with bounded shrinking.",
+          "git 2.39 is the executable specification; git behaviours that contradict its own documentation (x**/y, core.ignorecase with \\A / [A]) are excluded from the generator and listed as assumptions; two known findings about bracket classes matching '/' are tolerated by exact explanation probes.",
+          "DESIGN.md section 3 C04"),
   "C05": (True, "exploration",
           "proptest-driven generated trees with conflicting rule sources and flag sets; reference model of the documented filter precedence (FilterModel) vs rg --files",
           "12 000 generated trees (200 000 thorough) carrying subsets of the seven rule sources at any depth including above the search root and the cwd, with forced conflicts between sources, .git present or absent, all --no-ignore-* / -u / --hidden / --no-require-git / -t / -T / --max-depth combinations and several root spellings; the listed files are compared in both directions with a from-scratch model of the documented order. All 21 ordered source pairs are contested in every run. Random exploration with shrinking.",
           "The FilterModel is a reading of the documentation; combinations the documentation leaves undefined (anchored --ignore-file rules with absolute roots, anchored global rules, roots with ..) are rejected and counted; one known finding (parent ignore files see a re-based path) is tolerated only when an exact emulation of that defect reproduces the observed output.",
           "DESIGN.md section 3 C05"),
+  "C06": (True, "exploration",
+          "proptest-driven generated trees and walker configurations; three-way differential: serial walker vs parallel walker vs an independent recursive lister",
+          "1 500 generated trees (30 000 thorough) with empty directories, deep chains, wide fan-out, symlinks to files / directories / cycles / nowhere, several roots including file and symlink roots, part of the tree on a second device (/dev/shm), under combinations of max_depth, max_filesize, follow_links, same_file_system, an entry filter, hidden and ignore rules; each walked serially and with two parallel thread counts from 1..16 and compared as multisets of (path, depth, is_dir) with a from-scratch lister; link cycles must give a Loop error and termination (entry budget + watchdog). Random exploration with shrinking.",
+          "The DirLister encodes the WalkBuilder documentation; a few documented asymmetries (symlinked root file type, optional Loop errors for filtered links) are normalised; schedule-dependent behaviour of the parallel walker is C07's subject.",
+          "DESIGN.md section 3 C06"),
+  "C07": (True, "exploration",
+          "schedule exploration with the harness owning the thread schedule: real worker threads serialized at hooked synchronisation points by a controller driven by generated choice vectors / PCT priorities, plus exhaustive enumeration of all schedules up to a preemption bound; history invariants (exactly-once visits, no duplicates after quit) and a clock-free livelock rule confirmed by a free run",
+          "2 500 random and PCT schedules (40 000 thorough) of the real WalkParallel with 2-4 workers over 12 tree shapes and random small trees, visitor Quit injected at generated visit indices, plus every schedule with at most 2 preemptions (3 thorough) on four minimal configurations (~1 500 schedules). Each hooked operation (push, pop, steal, counter decrement/increment, quit flag read/write, idle, start, exit) is an atomic step; exactly one worker runs at a time, so a schedule is reproducible from its choice vector.",
+          "Interleavings inside crossbeam-deque and weak-memory effects are not explored; non-termination is reported only when every live worker is idle with no unseen push AND the threads are still running after being released for 2 s; needs the verif-hooks yield points in ignore::walk.",
+          "DESIGN.md section 3 C07"),
+  "C08": (True, "exploration",
+          "proptest-driven generated trees/modes; metamorphic relation between rg -j1 and rg -jN under perturbed timing (size spread, sleeping --pre script, repeats); --sort compared byte for byte",
+          "240 permutation cases x 3 thread counts x 3 repeats and 60 sorted cases (~2 700 multi-threaded runs; ~90 000 thorough): the -jN output must consist of exactly the -j1 per-file blocks, each once, contiguous and byte-identical, with separators exactly between blocks and the same exit status, in standard/heading/context/count/-l/--json/--files modes; --sort path output identical to -j1 and across repeats. The evidence counts how many distinct block orders were actually observed.",
+          "The OS picks the interleaving: this is perturbed random exploration, the claim is only 'no violation in N perturbed runs'; binary files behind a --pre pipe are excluded (cut-off depends on pipe read sizes, see C14).",
+          "DESIGN.md section 3 C08"),
   "C09": (True, "exploration",
           "proptest-driven generated (pattern, input, flag set) cases; the real binary's stdout is parsed by a grammar derived from the flags and every record checked against the file bytes (round-trip), columns/submatches against the per-line regex oracle",
           "6 000 generated cases (120 000 thorough) over -n -b --column --vimgrep -H/-I --heading --null -A -B --json -U --crlf -v -i, mmap on/off, inputs with invalid UTF-8, multi-byte characters, very long lines (up to 75 KB), CRLF and missing final newline: every printed body must be a line of the file byte for byte with its own line number / offset, column = first match start (all matches for --vimgrep), separators exactly between non-adjacent lines; JSON decoded lines/submatches must reproduce the file bytes, text vs base64 by UTF-8 validity in both directions, begin (match|context)* end. Random exploration with shrinking.",
@@ -70,6 +90,11 @@ CHECKS = {
           "12 000 generated cases (180 000 thorough): texts with BMP/astral characters, lone surrogates, odd byte counts, malformed double-byte sequences, encoded as UTF-16LE/BE/UTF-8 with BOM or searched with an explicit label, BOM vs conflicting label, --encoding none; each searched under slice, fragmented readers (splitting code units and surrogate pairs, crossing the 8 KiB transcoding buffer), file and mmap, and compared event by event with the search of the one-shot transcoding; plus a CLI sample. Random exploration with shrinking.",
           "Trusts encoding_rs's one-shot decode as the meaning of 'its UTF-8 transcoding'; four known findings rooted in encoding_rs_io / encoding_rs are tolerated by exact predicted deviation.",
           "DESIGN.md section 3 C17"),
+  "C18": (True, "fault_enumeration",
+          "fault enumeration at the CLI: generated preprocessor scripts / real and fake decompressors with injected stderr volume, exit status and exit point; differential oracle = rg on the bytes the command writes, plus an error decision table",
+          "A fixed grid of 132 stderr-flood cases (70 KB / 2 MiB before, during, after stdout x exit points x status x -m1) and 1 500 generated trees (24 000 thorough) with --pre, --pre-glob, -z on real gzip/bzip2/xz/lzma archives valid and truncated, missing tools, commands that cannot start, early stops by -m1/-l/-q/binary detection: stdout must equal rg on the command's own output per file, errors must name the file and give exit 2 exactly where the table requires, floods must not block.",
+          "The overlap 'rg stopped early AND the command failed with stderr output' is left unasserted (the property gives no rule); timing-dependent shapes are asserted only when the early stop is certain; a watchdog expiry counts only when a second run confirms it.",
+          "DESIGN.md section 3 C18"),
   "C19": (True, "exploration",
           "proptest-driven generated (pattern with groups, template, haystack) cases; differential oracle = regex crate Captures::expand / Regex::replace_all per matching line",
           "20 000 interpolate cases (~48 000 pattern/template pairs) comparing the in-repo interpolation and replace_with_captures with the regex library, plus 5 000 in-process printer cases (-r with -o, -U, --crlf, --column, -v with context, reader strategies) and a CLI sample, each compared line by line with replace_all of the original line. Random exploration with shrinking (x20 in the thorough tier).",
